@@ -163,8 +163,7 @@ def _ss_worker(args):
     return failing, outcome
 
 
-def small_scope_check(ctx, cid, n_quick=400):
-    """run the real tool on the small-scope programs (all of them in the thorough tier, a seeded sample otherwise) against the calculus"""
+def small_scope_select(ctx, n_quick):
     allp = small_scope_all()
     if ctx.thorough:
         progs = allp
@@ -174,6 +173,37 @@ def small_scope_check(ctx, cid, n_quick=400):
         one = [p for p in allp if int(p[0].split(":")[1]) < 3]
         k2 = min(len(two), (2 * n_quick) // 3)
         progs = ctx.rng.sample(two, k2) + ctx.rng.sample(one, min(len(one), n_quick - k2))
+    return progs, len(allp)
+
+
+def small_scope_map(ctx, worker, n_quick=400, extra=None):
+    """worker (a module-level function) is applied to (label, src, extra) for every selected small-scope program, in parallel;
+    it returns (failing list, outcome counters).  Returns (one failing record per signature, info)."""
+    progs, total = small_scope_select(ctx, n_quick)
+    res = vlib.pool_map(worker, [(l, s, extra) for l, s in progs], chunksize=16)
+    failing, outcome = [], {}
+    for f, o in res:
+        failing += f
+        for k, v in o.items():
+            outcome[k] = outcome.get(k, 0) + v
+    seen, uniq = set(), []
+    for f in failing:
+        k = json_key(f.get("sig"))
+        if k not in seen:
+            seen.add(k)
+            uniq.append(f)
+    return uniq, {"programs": len(progs), "of": total, "complete": len(progs) == total, "outcomes": outcome}
+
+
+def json_key(x):
+    import json
+    return json.dumps(x, sort_keys=True)
+
+
+def small_scope_check(ctx, cid, n_quick=400):
+    """run the real tool on the small-scope programs (all of them in the thorough tier, a seeded sample otherwise) against the calculus"""
+    progs, total = small_scope_select(ctx, n_quick)
+    allp = [None] * total
     res = vlib.pool_map(_ss_worker, [(l, s, cid) for l, s in progs], chunksize=16)
     failing, outcome = [], {}
     for f, o in res:
